@@ -68,12 +68,22 @@ theorem words_pad_only (n : Nat) : wordsAux (List.replicate n 32) [] = [] := by
 
 theorem padTo_eq (n : Nat) (s : Str) : padTo n s = s ++ List.replicate (n - s.length) 32 := rfl
 
+/-- one padded column followed by the separating blank -/
+theorem wordsAux_col (n : Nat) (t rest : Str) (ht : Tok t) :
+    wordsAux (padTo n t ++ [32] ++ rest) [] = t :: wordsAux rest [] := by
+  have : padTo n t ++ [32] ++ rest = t ++ (List.replicate (n - t.length) 32 ++ 32 :: rest) := by
+    simp [padTo_eq, List.append_assoc]
+  rw [this, wordsAux_tok_sp t _ _ ht]
+
 /-- the six columns of a manifest line come back as six words -/
 theorem words_fmtEntry (a b c d e g : Str) (ha : Tok a) (hb : Tok b) (hc : Tok c) (hd : Tok d) (he : Tok e)
     (hg : Tok g) : words (fmtEntry [a, b, c, d, e, g]) = [a, b, c, d, e, g] := by
-  simp only [words, fmtEntry, padTo_eq, List.append_assoc, List.singleton_append]
-  rw [wordsAux_tok_sp a _ _ ha, wordsAux_tok_sp b _ _ hb, wordsAux_tok_sp c _ _ hc, wordsAux_tok_sp d _ _ hd,
-    wordsAux_tok_sp e _ _ he, words_last g hg]
+  have : fmtEntry [a, b, c, d, e, g] =
+      padTo 15 a ++ [32] ++ (padTo 12 b ++ [32] ++ (padTo 10 c ++ [32] ++ (padTo 25 d ++ [32] ++
+        (padTo 30 e ++ [32] ++ g)))) := by
+    simp [fmtEntry, List.append_assoc]
+  rw [words, this, wordsAux_col _ a _ ha, wordsAux_col _ b _ hb, wordsAux_col _ c _ hc, wordsAux_col _ d _ hd,
+    wordsAux_col _ e _ he, words_last g hg]
 
 /-! ### lines -/
 
@@ -99,17 +109,13 @@ theorem lines_unlines (ls : List Str) (h : ∀ l ∈ ls, ∀ c ∈ l, c ≠ 10) 
     rw [this]
 
 theorem univNewlines_id (s : Str) (h : ∀ c ∈ s, c ≠ 13) : univNewlines s = s := by
+  unfold univNewlines
   induction s with
   | nil => rfl
   | cons c r ih =>
     have hc : c ≠ 13 := h c (by simp)
     have := ih (fun x hx => h x (by simp [hx]))
-    unfold univNewlines
-    split
-    · rename_i heq; cases heq; exact absurd rfl hc
-    · rename_i heq; cases heq; exact absurd rfl hc
-    · rename_i heq; cases heq; rw [this]
-    · rename_i heq _ _; cases heq
+    simp [univAux, hc, this]
 
 theorem mem_unlines (ls : List Str) (c : Nat) (hc : c ∈ unlines ls) : c = 10 ∨ ∃ l ∈ ls, c ∈ l := by
   induction ls with
@@ -198,7 +204,7 @@ theorem parseManHeader_manHeader (p v : Str) (hp : Tok p) (hv : Tok v) :
   have h2 : sVersionWord.isPrefixOf (sVersionWord ++ sFmt) = true := by simp
   have h3 : (sVersionWord ++ sFmt).drop sVersionWord.length = sFmt := by simp
   simp [h1, h2, h3, fmtVersionOk_fmt]
-  omega
+  exact hv.1
 
 /-! ### entry lines -/
 
@@ -287,12 +293,11 @@ theorem parseEntry_entryLine (o : WriteOpts) (recurse : Bool) (p : Dep) (hn : To
   simp only [hnc, Bool.false_eq_true, if_false]
   simp only [entryLine, entryFields] at hw ⊢
   rw [hw]
-  simp only [List.drop_succ_cons, List.drop_nil, isPrefixOfWord]
+  simp only [List.drop_succ_cons, List.drop_nil]
   rcases hp.distId with hd | ⟨s, hd, _, hs1, hs2⟩
   · simp [hd, distIdText, roundDep, mkDep, show (sNoneCap == sSearch) = false by decide]
   · have h1 : (s == sSearch) = false := by simpa using hs2
-    have h2 : ¬ (some s = some sNoneCap) := by intro e; exact hs1 (Option.some.inj e)
-    simp [hd, distIdText, roundDep, mkDep, h1, h2]
+    simp [hd, distIdText, roundDep, mkDep, h1, hs1]
 
 theorem parseEntry_comment (recurse : Bool) (l : Str) (h : isBlankOrComment l = true) :
     parseEntry false recurse l = .ok none := by
@@ -315,6 +320,12 @@ theorem parseEntries_entries (o : WriteOpts) (recurse : Bool) (ds : List Dep) (h
     simp only [List.map_cons, parseEntries, parseEntry_entryLine o recurse p hn ho (hd p (by simp)),
       ih (fun x hx => hd x (by simp [hx]))]
 
+theorem mem_padTo (n : Nat) (t : Str) (c : Nat) (h : c ∈ padTo n t) : c ∈ t ∨ c = 32 := by
+  simp only [padTo_eq, List.mem_append, List.mem_replicate] at h
+  rcases h with h | h
+  · exact Or.inl h
+  · exact Or.inr h.2
+
 /-- no character of a written entry line is a line terminator -/
 theorem entryLine_no_nl (o : WriteOpts) (p : Dep) (hn : Tok o.native) (ho : OptTok o.flavor) (hp : DepOk p) :
     ∀ c ∈ entryLine o p, c ≠ 10 ∧ c ≠ 13 := by
@@ -323,17 +334,21 @@ theorem entryLine_no_nl (o : WriteOpts) (p : Dep) (hn : Tok o.native) (ho : OptT
   have hdir := orNone_tok p.instDir hp.instDir
   have hdist := distIdText_tok p.distId hp.distId
   intro c hc
-  simp only [entryLine, entryFields, fmtEntry, padTo_eq, List.mem_append, List.mem_replicate, List.mem_singleton] at hc
+  simp only [entryLine, entryFields, fmtEntry, List.mem_append, List.mem_singleton] at hc
   have tk : ∀ t : Str, Tok t → c ∈ t → c ≠ 10 ∧ c ≠ 13 := fun t ht hct => ⟨ht.no_nl c hct, ht.no_cr c hct⟩
-  rcases hc with ((((((((((h | h) | h) | h) | h) | h) | h) | h) | h) | h) | h) <;>
+  rcases hc with ((((((((((h | h) | h) | h) | h) | h) | h) | h) | h) | h) | h)
+  all_goals
     first
-    | exact tk _ hp.product h
-    | exact tk _ hfl h
-    | exact tk _ hp.version h
-    | exact tk _ htab h
-    | exact tk _ hdir h
+    | (have h32 : c = 32 := h
+       subst h32; exact ⟨by decide, by decide⟩)
+    | (rcases mem_padTo _ _ _ h with h' | h'
+       · first
+         | exact tk _ hp.product h'
+         | exact tk _ hfl h'
+         | exact tk _ hp.version h'
+         | exact tk _ htab h'
+         | exact tk _ hdir h'
+       · subst h'; exact ⟨by decide, by decide⟩)
     | exact tk _ hdist h
-    | (have : c = 32 := by first | exact h.2 | exact h
-       subst this; exact ⟨by decide, by decide⟩)
 
 end EupsModel.Manifest
